@@ -1,6 +1,8 @@
 import PwVerif.Proofs.Exec
 import PwVerif.Proofs.ExecFin
 import PwVerif.Proofs.ExecNest
+import PwVerif.Proofs.ExecFine
+import PwVerif.Proofs.FlowFail
 /-!
 # C06 — A failing node is contained, reported, and leaves consistent statuses
 
@@ -347,6 +349,34 @@ example : (match tEnd.sub [2, 1] with | .comp _ _ s _ => (s.calls 2, s.st 1, s.r
     (0, .failed, []) := by decide
 
 
+/-! ### termination of the nested machine -/
+
+/-- TERMINATES, every depth: along ANY nested schedule from a fresh tree the number of actions (of all levels together)
+is at most `nbound` — a number that depends on the wiring and the shape of the tree only (`nl p` lists the children of
+the composite at path `p`). With `C06_nest_progress` every maximal schedule therefore ends with the outermost loop over. -/
+theorem C06_nest_terminates {cfg : Cfg} {t₀ t : Tree E} (wf : NWF t₀) (hf : Fresh t₀) (nl : List Nat → List Nat)
+    (hc : Covered t₀ nl) (acts : List (List Nat × Act)) (hr : nrun cfg t₀ acts = some t) :
+    acts.length ≤ nbound t₀ nl := by
+  have := nrun_bounded cfg acts t₀ t nl wf (fresh_ninv cfg t₀ wf hf) (fresh_nmem t₀ hf) hc hr
+  rw [fresh_npot t₀ hf nl] at this
+  omega
+
+def nlTop : List Nat → List Nat
+  | [] => [0, 1, 2, 3]
+  | [2] => [0, 1, 2]
+  | [2, 1] => [0, 1, 2]
+  | _ => []
+
+theorem coveredTop : Covered tTop nlTop :=
+  covered_mkComp wTop (by decide) _ _ _ rfl (by
+    intro x hx; simp at hx; subst hx
+    exact covered_mkComp wMid (by decide) _ _ _ rfl (by
+      intro y hy; simp at hy; subst hy
+      exact covered_mkComp wInner (by decide) _ _ _ rfl (by intro z hz; cases hz)))
+
+/-- the three-level example: at most 29 actions, the schedule shown has 13 -/
+example : nbound tTop nlTop = 29 ∧ actsNest.length = 13 := by decide
+
 /-! ### pieces of the exception path outside the tree machine (each a finding on the pinned code) -/
 
 /-- repaired book-keeping: however often the child is asked before (any outcomes) and however often it is refused
@@ -386,7 +416,321 @@ theorem C06_callback_handles_what_local_handles (k : Kind) : handledInCallback t
 theorem C06_callback_pinned_witness :
     handledLocally .keyboardInterrupt = true ∧ handledInCallback false .keyboardInterrupt = false := by decide
 
+/-! ### kinds of raised objects × the two exception paths, at every depth
+
+`propagate c k execs`: a function (or `If` condition …) raises an object of kind `k`; `execs` says for the raising node
+and for every composite above it whether it was handed to an executor (innermost first). The result lists how every
+node on that path ends and what the caller of the outermost run gets. What the statement demands of every kind it
+covers: every node on the path `failed` (marked failed, not running, failure announced) and the object reaches the
+caller, as itself or at the bottom of a chain of `FailedChildError`s. -/
+
+def KindStatement (c : KCfg) : Prop :=
+  ∀ (k : Kind) (execs : List Bool), execs ≠ [] →
+    (∀ s ∈ (propagate c k execs).stats, s = .failed) ∧ (propagate c k execs).stats.length = execs.length ∧
+    ((propagate c k execs).hand.caller = .raw k ∨ ∃ n, (propagate c k execs).hand.caller = .chain k n)
+
+/-- both paths processing every `BaseException`: the full statement, for every kind, every depth, every placement -/
+theorem C06_kinds_proposed : KindStatement KCfg.proposed := by
+  intro k execs hne
+  have hl : KCfg.proposed.local k = true := by cases k <;> rfl
+  have hc : KCfg.proposed.callback k = true := by cases k <;> rfl
+  obtain ⟨h1, h2, h3⟩ := propagate_handled _ k hl hc execs hne
+  exact ⟨h1, h3, carries_caller k _ h2⟩
+
+/-- the tree as it is (after f3b0474): the statement for `Exception`s and `KeyboardInterrupt`, every depth, every
+placement of executors -/
+theorem C06_kinds_head_partial (k : Kind) (hk : k ≠ .otherBase) (execs : List Bool) (hne : execs ≠ []) :
+    (∀ s ∈ (propagate KCfg.head k execs).stats, s = .failed) ∧ (propagate KCfg.head k execs).stats.length = execs.length ∧
+    ((propagate KCfg.head k execs).hand.caller = .raw k ∨ ∃ n, (propagate KCfg.head k execs).hand.caller = .chain k n) := by
+  have hl : KCfg.head.local k = true := by cases k <;> first | rfl | exact absurd rfl hk
+  have hc : KCfg.head.callback k = true := by cases k <;> first | rfl | exact absurd rfl hk
+  obtain ⟨h1, h2, h3⟩ := propagate_handled _ k hl hc execs hne
+  exact ⟨h1, h3, carries_caller k _ h2⟩
+
+/-- … and not for the other `BaseException`s (`SystemExit`, `GeneratorExit`, …): raised locally, the node is left
+marked running -/
+theorem C06_kinds_head_witness : ¬ KindStatement KCfg.head := by
+  intro h
+  have := (h .otherBase [false] (by simp)).1 .leftRunning (by decide)
+  cases this
+
+/-- raised on an executor inside a macro: the node announces completion, everybody above carries on, the caller gets
+nothing; one level up (a local node inside an executor-run macro) the node is left running and the macro completes -/
+theorem C06_kinds_vanish_witness :
+    propagate KCfg.head .otherBase [true, false, false] =
+      { stats := [.falselyDone, .fine, .fine], aborted := [false, false], hand := .gone } ∧
+    (propagate KCfg.head .otherBase [false, true, false]).stats = [.leftRunning, .falselyDone, .fine] ∧
+    (propagate KCfg.head .otherBase [false, true, false]).hand.caller = .nothing := by decide
+
+/-- before f3b0474 the same happened to a `KeyboardInterrupt` on an executor -/
+example : (propagate KCfg.pinned .keyboardInterrupt [true, false]).hand.caller = .nothing := by decide
+/-- an `Exception` three levels down, everything local: three `FailedChildError`s... two composites above the node -/
+example : (propagate KCfg.head .exception [false, false, false]).hand.caller = .chain .exception 2 := by decide
+/-- a `KeyboardInterrupt` in a local node of an executor-run macro: the macro's loop is left at once, its callback
+processes the interrupt, the workflow collects it and drains -/
+example : propagate KCfg.head .keyboardInterrupt [false, true, false] =
+    { stats := [.failed, .failed, .failed], aborted := [true, false], hand := .collect .keyboardInterrupt 1 } := by decide
+
+section Fine
+open PwVerif.ExecFine
+
+/-! ## Faults under the fine interleaving (the done-callback of an executor child as two steps)
+
+`ExecFine` splits the callback of an executor-run child into its two bookkeeping calls on the parent and lets the
+parent's loop run in between (tree order since cd51c9b: signals queued first, de-registered second). For a FAILING
+child the first half is: result processed — `failed` set, outputs untouched —, the `failed` signal queued; the second:
+removed from `running_children`. The refinement `runF_sim` holds for every fault set, so every C06 clause holds at
+every moment of every such interleaving. -/
+
+def FReach (cfg : Cfg) (d : Dag) (f : F) : Prop := ∃ acts, runF cfg FCfg.repaired d (initF d) acts = some f
+
+theorem fine_refines {cfg d f} (h : FReach cfg d f) : Reach cfg d f.core := by
+  obtain ⟨acts, ha⟩ := h
+  exact runF_sim cfg d acts (initF d) f (init d) [] rfl ha
+
+theorem C06_fine_no_downstream {cfg d f} (wf : WF d) (h : FReach cfg d f) (i j : Nat) (hj : j ∈ d.deps i)
+    (hf : f.core.st j ≠ .done) : f.core.calls i = 0 ∧ f.core.st i = .idle :=
+  C06_no_downstream wf (fine_refines h) i j hj hf
+
+theorem C06_fine_outputs_kept {cfg d f} (wf : WF d) (h : FReach cfg d f) (i : Nat) (hf : f.core.st i = .failed) :
+    f.core.out i = d.out0 i :=
+  C06_outputs_kept wf (fine_refines h) i hf
+
+theorem C06_fine_failed_marked {cfg d f} (wf : WF d) (h : FReach cfg d f) (i : Nat) :
+    (d.fails i = true → f.core.st i ≠ .done) ∧ (f.core.st i = .failed → d.fails i = true ∧ f.core.calls i = 1) :=
+  C06_failed_marked wf (fine_refines h) i
+
+/-- at every moment of every fine schedule (repaired error handling): the run never aborts, and the errors the
+composite holds are exactly the children that have failed so far — also while a failing child's callback is parked
+between its two calls -/
+theorem C06_fine_reported {d f} (wf : WF d) (h : FReach Cfg.repaired d f) :
+    f.core.phase ≠ .aborted ∧ ((∃ i, f.core.st i = .failed) ↔ f.core.errs ≠ []) :=
+  C06_reported_repaired wf (fine_refines h)
+
+/-- a callback parked between its two calls keeps the parent in its loop -/
+theorem C06_fine_parked_blocks_exit (cfg : Cfg) (d : Dag) (f : F) (k : Nat) (hk : k ∈ f.mid) :
+    stepF cfg FCfg.repaired d f .exit = none := by
+  have hv : visRunning FCfg.repaired f ≠ [] := by
+    simp only [visRunning, FCfg.repaired, if_true]
+    intro he
+    have : k ∈ f.core.running ++ f.mid := List.mem_append_right _ hk
+    rw [he] at this; cases this
+  simp only [stepF]
+  split
+  · rename_i h1 h2 h3; exact absurd h3 hv
+  · rfl
+
+/-- when the loop has been left: nobody out, nobody registered as running, no callback half-way, nothing fired
+outside the run -/
+theorem C06_fine_nobody_running {cfg d f} (wf : WF d) (h : FReach cfg d f) (hex : f.core.phase = .exited) :
+    visRunning FCfg.repaired f = [] ∧ f.mid = [] ∧ f.late = [] ∧ ∀ i, f.core.st i ≠ .out := by
+  obtain ⟨hr, hout⟩ := C06_nobody_running_exited wf (fine_refines h) hex
+  obtain ⟨acts, ha⟩ := h
+  have hm := runF_midInv cfg d acts (initF d) f (by intro hp; simp [initF, init] at hp) ha hex
+  have hl := runF_late cfg d acts (initF d) f ha
+  exact ⟨by simp [visRunning, FCfg.repaired, hr, hm], hm, by simpa [initF] using hl, hout⟩
+
+/-- non-vacuity: `a → b`, `a` on an executor and raising; its callback is parked after the first call: the exit test
+fails; after the second call the loop ends with the error collected and `b` never invoked -/
+def wFine : FinDag :=
+  { n := 2, slots := [[], [[0]]], down := [[1], []], starters := [0], onExec := [true, false],
+    fails := [true, false], rank := [0, 1] }
+
+example : (runF Cfg.repaired FCfg.repaired wFine.toDag (initF wFine.toDag) [.start, .cbFirst 0]).map
+    (fun f => (f.mid, f.core.st 0, f.core.errs, (stepF Cfg.repaired FCfg.repaired wFine.toDag f .exit).isNone)) =
+    some ([0], .failed, [0], true) := by decide
+example : (runF Cfg.repaired FCfg.repaired wFine.toDag (initF wFine.toDag) [.start, .cbFirst 0, .cbSecond 0, .exit]).map
+    (fun f => (f.core.phase, f.mid, f.late, f.core.errs, f.core.calls 1)) = some (.exited, [], [], [0], 0) := by decide
+
+end Fine
+
 end PwVerif.C06
+
+/-! ## Hand-wired flows: the C06 clauses on C02's machine `Signal.compositeRun`
+
+For EVERY signal graph `g` (cycles, any-of `run` inputs, all-of triggers, `If` branches, children triggered again and
+again), every table of children `nodes` (kinds, data connections, caches, `failAt`), every store left by earlier runs,
+every state of the all-of triggers and every fuel; exceptions are values of an arbitrary type `E`. `flowRun true` is
+the tree as it is (69a7122, 5bc222d), `flowRun false` the book-keeping before 5bc222d. -/
+namespace PwVerif.C06
+open PwVerif PwVerif.Signal PwVerif.FlowFail
+
+variable {E : Type}
+
+def flowRun (repaired : Bool) (nodes : Nat → Node) (exc : Nat → Nat → E) (refusal : Nat → E) (g : Graph) (fuel : Nat)
+    (st : Store) (rec : Nat → List Label) : Signal.S (FStore E) :=
+  compositeRun (flowSem repaired nodes exc refusal) g fuel (S.init (FStore.init st) rec)
+
+/-- ANNOUNCES FAILURE ONLY: of every `run()` the composite made — a refused one emitted nothing, a completed one `ran`
+(+ the branch of an `If`) and never `failed`, one whose function raised `failed` and nothing else; and a child only
+emits its own channels -/
+theorem C06_flow_failed_emits_failed_only (rep : Bool) (nodes : Nat → Node) (exc : Nat → Nat → E) (refusal : Nat → E)
+    (g : Graph) (fuel : Nat) (st : Store) (rec : Nat → List Label) :
+    ∀ en ∈ (flowRun rep nodes exc refusal g fuel st rec).store.log,
+      EntryOK en ∧ ∀ e ∈ en.sigs, e / 4 = en.child := by
+  have h1 := store_inv (flowSem rep nodes exc refusal) LogOK (fun fs i h => react_logOK rep nodes exc refusal fs i h)
+    g fuel (S.init (FStore.init st) rec) (by intro en hen; simp [S.init, FStore.init] at hen)
+  have h2 := store_inv (flowSem rep nodes exc refusal) LogOwn (fun fs i h => react_logOwn rep nodes exc refusal fs i h)
+    g fuel (S.init (FStore.init st) rec) (by intro en hen; simp [S.init, FStore.init] at hen)
+  intro en hen
+  exact ⟨h1 en hen, h2 en hen⟩
+
+/-- EVERY RUN HAS A CAUSE: a child the composite ran is a starting node, or some logged run emitted a signal that is
+wired to it; the composite's `errs`/`fired` lists are the log -/
+theorem C06_flow_contained (rep : Bool) (nodes : Nat → Node) (exc : Nat → Nat → E) (refusal : Nat → E)
+    (g : Graph) (fuel : Nat) (st : Store) (rec : Nat → List Label) :
+    let s := flowRun rep nodes exc refusal g fuel st rec
+    (∀ j ∈ s.fired, j ∈ g.starters ∨ ∃ en ∈ s.store.log, ∃ e ∈ en.sigs, ∃ r ∈ g.conns e, r.node = j) ∧
+    s.errs = (s.store.log.filter (·.raised)).map (·.child) ∧ s.fired = s.store.log.map (·.child) := by
+  intro s
+  have h := compositeRun_sinv rep nodes exc refusal g fuel st rec
+  refine ⟨?_, h.errs, h.fired⟩
+  intro j hj
+  rcases h.caused j hj with hc | ⟨e, r, ⟨en, hen, he⟩, hr, hn⟩
+  · exact Or.inl hc
+  · exact Or.inr ⟨en, hen, e, he, r, hr, hn⟩
+
+/-- NOTHING DOWNSTREAM OF A FAILURE RUNS: let `F` be children all of whose runs raised. A child that is not a starting
+node and is wired only to `ran`/`true`/`false` channels of children in `F` was never run -/
+theorem C06_flow_no_downstream (rep : Bool) (nodes : Nat → Node) (exc : Nat → Nat → E) (refusal : Nat → E)
+    (g : Graph) (fuel : Nat) (st : Store) (rec : Nat → List Label) (F : Nat → Prop) (j : Nat)
+    (hF : ∀ en ∈ (flowRun rep nodes exc refusal g fuel st rec).store.log, F en.child → en.raised = true)
+    (hs : j ∉ g.starters)
+    (hw : ∀ e r, r ∈ g.conns e → r.node = j → ∃ i, F i ∧ (e = sigRan i ∨ e = sigTrue i ∨ e = sigFalse i)) :
+    j ∉ (flowRun rep nodes exc refusal g fuel st rec).fired := by
+  intro hj
+  rcases (C06_flow_contained rep nodes exc refusal g fuel st rec).1 j hj with hc | ⟨en, hen, e, he, r, hr, hn⟩
+  · exact hs hc
+  · obtain ⟨i, hFi, hei⟩ := hw e r hr hn
+    obtain ⟨hok, hown⟩ := C06_flow_failed_emits_failed_only rep nodes exc refusal g fuel st rec en hen
+    have hc : en.child = i := by
+      have := hown e he
+      rcases hei with rfl | rfl | rfl
+      · rw [← this]; simp [sigRan]
+      · rw [← this]; show (4 * i + 2) / 4 = i; omega
+      · rw [← this]; show (4 * i + 3) / 4 = i; omega
+    have hr' := hF en hen (hc ▸ hFi)
+    obtain ⟨h1, h2, _⟩ := hok
+    have hne := sig_ne i
+    cases hst : en.started
+    · rw [h2 hr' hst] at he; cases he
+    · rw [h1 hr' hst, hc] at he
+      simp only [List.mem_singleton] at he
+      rcases hei with rfl | rfl | rfl
+      · exact hne.1 he.symm
+      · exact hne.2.1 he.symm
+      · exact hne.2.2 he.symm
+
+/-- ORIGINAL KEPT: a child whose function raised is failed, and the error recorded for it is what THAT invocation
+raised — whatever refusals came before and however often it was asked again afterwards (5bc222d) -/
+theorem C06_flow_original_kept (nodes : Nat → Node) (exc : Nat → Nat → E) (refusal : Nat → E)
+    (g : Graph) (fuel : Nat) (st : Store) (rec : Nat → List Label) (i : Nat)
+    (hi : RaisedIn (flowRun true nodes exc refusal g fuel st rec).store i) :
+    let fs := (flowRun true nodes exc refusal g fuel st rec).store
+    fs.st.failed i = true ∧ dget fs.book.errors i = some (exc i (fs.st.attempts i)) ∧ i ∈ fs.book.accounted :=
+  store_inv (flowSem true nodes exc refusal) (OrigKept exc) (fun fs i h => react_origKept nodes exc refusal fs i h)
+    g fuel (S.init (FStore.init st) rec) (by intro j ⟨en, hen, _⟩; simp [S.init, FStore.init] at hen) i hi
+
+/-- ONE ERROR PER CHILD: the keys of the error dict are distinct and are exactly the children one of whose `run()`s
+raised into the composite -/
+theorem C06_flow_one_error_per_child (nodes : Nat → Node) (exc : Nat → Nat → E) (refusal : Nat → E)
+    (g : Graph) (fuel : Nat) (st : Store) (rec : Nat → List Label) :
+    let s := flowRun true nodes exc refusal g fuel st rec
+    (s.store.book.errors.map (·.1)).Nodup ∧ ∀ i, (dget s.store.book.errors i).isSome = true ↔ i ∈ s.errs := by
+  intro s
+  have hk := store_inv (flowSem true nodes exc refusal) KeysOK (fun fs i h => react_keysOK nodes exc refusal fs i h)
+    g fuel (S.init (FStore.init st) rec) (by
+      refine ⟨by simp [S.init, FStore.init, Book.empty], ?_⟩
+      intro i; simp [S.init, FStore.init, Book.empty, dget])
+  refine ⟨hk.1, ?_⟩
+  intro i
+  have hki := hk.2 i
+  have herr := (C06_flow_contained true nodes exc refusal g fuel st rec).2.1
+  show (dget (flowRun true nodes exc refusal g fuel st rec).store.book.errors i).isSome = true ↔
+    i ∈ (flowRun true nodes exc refusal g fuel st rec).errs
+  unfold flowRun at herr ⊢
+  rw [hki, herr]
+  simp only [List.mem_map, List.mem_filter]
+  constructor
+  · rintro ⟨en, hen, hc, hr⟩; exact ⟨en, ⟨hen, hr⟩, hc⟩
+  · rintro ⟨en, ⟨hen, hr⟩, hc⟩; exact ⟨en, hen, hc, hr⟩
+
+/-- REPORTED: the composite raises iff some child's `run()` raised into it; in particular whenever a function raised -/
+theorem C06_flow_raises_iff (nodes : Nat → Node) (exc : Nat → Nat → E) (refusal : Nat → E)
+    (g : Graph) (fuel : Nat) (st : Store) (rec : Nat → List Label) :
+    let s := flowRun true nodes exc refusal g fuel st rec
+    (s.store.book.errors ≠ [] ↔ s.errs ≠ []) ∧ (∀ i, RaisedIn s.store i → s.store.book.errors ≠ []) := by
+  intro s
+  have h1 := C06_flow_one_error_per_child nodes exc refusal g fuel st rec
+  have hfirst : s.store.book.errors ≠ [] ↔ s.errs ≠ [] := by
+    constructor
+    · intro hne
+      obtain ⟨k, hk⟩ := dget_some_of_ne_nil _ hne
+      have := (h1.2 k).mp hk
+      intro he; rw [he] at this; cases this
+    · intro hne he
+      cases hl : s.errs with
+      | nil => exact hne hl
+      | cons x xs =>
+        have := (h1.2 x).mpr (by rw [hl]; simp)
+        rw [he] at this; simp [dget] at this
+  refine ⟨hfirst, ?_⟩
+  intro i hi he
+  have := (C06_flow_original_kept nodes exc refusal g fuel st rec i hi).2.1
+  rw [he] at this; simp [dget] at this
+
+/-- CAUSE: if child `i` is the only one whose `run()` ever raised into the composite, and its function did raise, the
+caller sees `FailedChildError from` exactly what that invocation raised — for every exception type -/
+theorem C06_flow_cause (nodes : Nat → Node) (exc : Nat → Nat → E) (refusal : Nat → E)
+    (g : Graph) (fuel : Nat) (st : Store) (rec : Nat → List Label) (i : Nat)
+    (hi : RaisedIn (flowRun true nodes exc refusal g fuel st rec).store i)
+    (honly : ∀ en ∈ (flowRun true nodes exc refusal g fuel st rec).store.log, en.raised = true → en.child = i) :
+    let fs := (flowRun true nodes exc refusal g fuel st rec).store
+    seen fs.book = .failedChild (some (exc i (fs.st.attempts i))) := by
+  intro fs
+  have hk := C06_flow_one_error_per_child nodes exc refusal g fuel st rec
+  have hc := (C06_flow_contained true nodes exc refusal g fuel st rec).2.1
+  have ho := C06_flow_original_kept nodes exc refusal g fuel st rec i hi
+  have hall : ∀ p ∈ fs.book.errors, p.1 = i := by
+    intro p hp
+    have := (hk.2 p.1).mp (dget_mem _ p hp)
+    rw [hc] at this
+    simp only [List.mem_map, List.mem_filter] at this
+    obtain ⟨en, ⟨hen, hr⟩, hch⟩ := this
+    rw [← hch]; exact honly en hen hr
+  have hne : fs.book.errors ≠ [] := (C06_flow_raises_iff nodes exc refusal g fuel st rec).2 i hi
+  obtain ⟨e, he⟩ := single_key _ i hk.1 hall hne
+  have h2 := ho.2.1
+  show seen fs.book = _
+  unfold seen
+  rw [he] at h2 ⊢
+  rw [dget_single] at h2
+  simp only [Option.some.injEq] at h2
+  simp only [h2]
+  rfl
+
+/-! non-vacuity and the pinned book-keeping: `a >> c`, `b >> c`, starting nodes `a, b`; `c`'s function raises at its
+first invocation. Exceptions: `100 + child` from a function, `200 + child` = refusal. -/
+def yNodes : Nat → Node := fun i =>
+  { kind := .term i, slots := [], useCache := false, failAt := if i = 2 then [1] else [] }
+def yGraph : FinGraph :=
+  { conns := [[⟨2, false⟩], [], [], [], [⟨2, false⟩]], accConns := [], labs := [0, 1, 2, 3, 4], starters := [0, 1] }
+def yRun (rep : Bool) : Signal.S (FStore Nat) :=
+  flowRun rep yNodes (fun i _ => 100 + i) (fun i => 200 + i) yGraph.toGraph 10 Store.init (fun _ => [])
+
+example : (yRun true).fired = [0, 1, 2, 2] ∧ (yRun true).errs = [2, 2] ∧
+    (yRun true).store.log.map (fun en => (en.child, en.raised, en.started, en.sigs)) =
+      [(0, false, true, [0]), (1, false, true, [4]), (2, true, true, [9]), (2, true, false, [])] := by decide
+example : RaisedIn (yRun true).store 2 := ⟨⟨2, true, true, [9]⟩, by decide, rfl, rfl, rfl⟩
+example : seen (yRun true).store.book = .failedChild (some 102) := by decide
+
+/-- the book-keeping before 5bc222d loses the original: the caller sees the refusal -/
+theorem C06_flow_pinned_witness :
+    seen (yRun false).store.book = .failedChild (some 202) ∧ seen (yRun true).store.book = .failedChild (some 102) := by
+  decide
+
+end PwVerif.C06
+
 
 #print axioms PwVerif.C06.C06_no_downstream
 #print axioms PwVerif.C06.C06_outputs_kept
@@ -411,3 +755,22 @@ end PwVerif.C06
 #print axioms PwVerif.C06.C06_if_pinned_witness
 #print axioms PwVerif.C06.C06_callback_handles_what_local_handles
 #print axioms PwVerif.C06.C06_callback_pinned_witness
+#print axioms PwVerif.C06.C06_nest_terminates
+#print axioms PwVerif.C06.C06_fine_no_downstream
+#print axioms PwVerif.C06.C06_fine_outputs_kept
+#print axioms PwVerif.C06.C06_fine_failed_marked
+#print axioms PwVerif.C06.C06_fine_reported
+#print axioms PwVerif.C06.C06_fine_parked_blocks_exit
+#print axioms PwVerif.C06.C06_fine_nobody_running
+#print axioms PwVerif.C06.C06_flow_failed_emits_failed_only
+#print axioms PwVerif.C06.C06_flow_contained
+#print axioms PwVerif.C06.C06_flow_no_downstream
+#print axioms PwVerif.C06.C06_flow_original_kept
+#print axioms PwVerif.C06.C06_flow_one_error_per_child
+#print axioms PwVerif.C06.C06_flow_raises_iff
+#print axioms PwVerif.C06.C06_flow_cause
+#print axioms PwVerif.C06.C06_flow_pinned_witness
+#print axioms PwVerif.C06.C06_kinds_proposed
+#print axioms PwVerif.C06.C06_kinds_head_partial
+#print axioms PwVerif.C06.C06_kinds_head_witness
+#print axioms PwVerif.C06.C06_kinds_vanish_witness
